@@ -314,9 +314,27 @@ def main():
     try:
         for unit in units:
             runs.append(run_unit(prop, unit, pcfg, cache))
+        kani_sel = list(pcfg.get('kani_quick', [])) + (list(pcfg.get('kani_thorough', [])) if tier == 'thorough' else [])
+        if kani_sel:
+            import kani_run
+            kr = kani_run.run(kani_sel)
+            extra.setdefault('report', {})['kani'] = {k: v for k, v in kr.items() if k != 'tail'}
+            for h, v in sorted(kr['harnesses'].items()):
+                ob = 'kani:' + h
+                extra.setdefault('obligations', []).append(ob)
+                if v['status'] == 'FAILED':
+                    extra.setdefault('fails', []).append({'kind': 'kani', 'message': 'Kani harness %s FAILED' % h, 'fn': h, 'module': 'kani', 'src': 'kani/src/lib.rs',
+                        'line': 0, 'rendered': kr.get('tail', ''), 'canary': None, 'labels': [], 'obligation': ob, 'props': [prop], 'clause': None, 'cmd': kr['cmd']})
+                elif v['status'] != 'SUCCESSFUL':
+                    extra.setdefault('undecided', []).append({'message': 'Kani harness %s: %s' % (h, v['status']), 'fn': h, 'module': 'kani', 'kind': 'kani'})
+            if not kr['harnesses']:
+                extra.setdefault('undecided', []).append({'message': 'Kani produced no result: ' + kr.get('tail', '')[-400:], 'fn': None, 'module': 'kani', 'kind': 'kani'})
         if tier == 'thorough':
             import thorough
-            extra = thorough.run(prop, pcfg, units, runs, seed, run_unit, Undecided)
+            ex2 = thorough.run(prop, pcfg, units, runs, seed, run_unit, Undecided)
+            for k, v in ex2.items():
+                if k == 'report': extra.setdefault('report', {}).update(v)
+                else: extra.setdefault(k, []).extend(v)
     except (ExtractError, Undecided, extract.RsxError) as e:
         print('UNDECIDED property=%s: %s' % (prop, e))
         return 2
